@@ -139,6 +139,59 @@ def d1_root(ctx):
         ctx.check(rule, 'roots.py:find_root#carrier-value', unparse(c) in (root + '[0]',), 'central value = root', 'carrier value is %s' % unparse(c), m.loc(dc))
 
 
+def _def_before(f, name, node):
+    """the assignment to `name` that reaches `node`: the last one written before it (straight-line reading, as the reference code has it)"""
+    ds = [d for d in find_def(f, name) if d.lineno < node.lineno]
+    return ds[-1] if ds else None
+
+
+def _len_of(f, expr, seq, depth=0):
+    """True when `expr` evaluates to len(seq): len(seq) itself, a name bound once to such an expression, the literal length of the
+    list display `seq` is bound to, or the length of an array built element by element over range(len(seq))"""
+    if depth > 4 or expr is None:
+        return False
+    if isinstance(expr, ast.Call) and call_name(expr) == 'len' and len(expr.args) == 1:
+        a = expr.args[0]
+        if unparse(a) == seq:
+            return True
+        if isinstance(a, ast.Name):
+            ds = find_def(f, a.id)
+            if len(ds) == 1:
+                v = ds[0].value
+                if isinstance(v, ast.Call) and call_name(v) in ('array', 'asarray', 'list') and v.args:
+                    v = v.args[0]
+                if isinstance(v, ast.ListComp) and len(v.generators) == 1 and not v.generators[0].ifs:
+                    it = v.generators[0].iter
+                    if unparse(it) == seq:
+                        return True
+                    if isinstance(it, ast.Call) and call_name(it) == 'range' and len(it.args) == 1:
+                        return _len_of(f, it.args[0], seq, depth + 1)
+        return False
+    if isinstance(expr, ast.Name):
+        ds = find_def(f, expr.id)
+        return len(ds) == 1 and _len_of(f, ds[0].value, seq, depth + 1)
+    if isinstance(expr, ast.Constant) and isinstance(expr.value, int):
+        ds = find_def(f, seq)
+        return len(ds) == 1 and isinstance(ds[0].value, (ast.List, ast.Tuple)) and len(ds[0].value.elts) == expr.value and not any(isinstance(e, ast.Starred) for e in ds[0].value.elts)
+    return False
+
+
+def _range_over(f, it, seq):
+    return isinstance(it, ast.Call) and call_name(it) == 'range' and len(it.args) == 1 and not it.keywords and _len_of(f, it.args[0], seq)
+
+
+def _selects(f, defs, seq, mask):
+    """`[seq[i] for i in range(len(seq)) if mask[i]]`"""
+    if len(defs) != 1 or not isinstance(defs[0].value, ast.ListComp) or len(defs[0].value.generators) != 1:
+        return False
+    c = defs[0].value
+    g = c.generators[0]
+    if not isinstance(g.target, ast.Name) or len(g.ifs) != 1:
+        return False
+    i = g.target.id
+    return unparse(c.elt) == '%s[%s]' % (seq, i) and unparse(g.ifs[0]) == '%s[%s]' % (mask, i) and _range_over(f, g.iter, seq)
+
+
 def d2_quad(ctx):
     rule = 'C09-D2'
     m = ctx.repo.mod('integrate')
@@ -187,7 +240,7 @@ def d2_quad(ctx):
         i = unparse(loop.target)
         g = [unparse(t) for t, pol in guards_of(m, lim[0], stop=f) if pol]
         t = unparse(lim[0].args[0])
-        ok = t == 'bsign[%s] * %s(pval, bval[%s])' % (i, func_, i) and g == ['isobs_b[%s]' % i] and unparse(loop.iter) == 'range(2)'
+        ok = t == 'bsign[%s] * %s(pval, bval[%s])' % (i, func_, i) and g == ['isobs_b[%s]' % i] and _range_over(f, loop.iter, 'bounds')
         ctx.check(rule, key, ok, 'limit i contributes bsign[i] * f(p, bound_i) iff bound i is an observable (one index i)', 'limit term is %s under %s in loop %s' % (t, g, unparse(loop.iter)), m.loc(lim[0]))
     key = 'integrate.py:quad#parameter-term'
     if len(par) != 1:
@@ -225,7 +278,7 @@ def d2_quad(ctx):
             if len(la) < 2 and set(kwl) == {'a', 'b'}:
                 la = [kwl['a'], kwl['b']]
             okl = la in (['bounds[0]', 'bounds[1]'], ['bval[0]', 'bval[1]']) and (len(integ) != 1 or unparse(sq_call.args[0]) == unparse(integ[0].targets[0]))
-        ok = oki and okl and g == ['isobs[%s]' % i] and unparse(loop.iter) == 'range(Np)'
+        ok = oki and okl and g == ['isobs[%s]' % i] and _range_over(f, loop.iter, p_)
         ctx.check(rule, key, bool(ok), 'parameter i contributes the integral over [a, b] of (d f/d p)[i] iff p[i] is an observable', 'parameter term is %s (integrand %s) under %s' % (t, itxt, g), m.loc(par[0]))
         jd = find_def(f, 'jac')
         ctx.check(rule, 'integrate.py:quad#jacobian', len(jd) == 1 and unparse(jd[0].value) == 'jacobian(%s)' % func_, 'jac differentiates func in its parameter argument', 'jac = %s' % [unparse(s.value) for s in jd])
@@ -242,7 +295,7 @@ def d2_quad(ctx):
         ctx.check(rule, 'integrate.py:quad#order', ok and unparse(kwarg(dc, 'man_grad')) == 'derivint', 'gradient entries are appended in the order of the data list (parameters, then limits)',
                   'data list %s but gradients appended %s' % (data, 'parameters first' if order_code else 'limits first'), m.loc(dc))
         po, bo = find_def(f, 'pobs'), find_def(f, 'bobs')
-        okp = len(po) == 1 and unparse(po[0].value) == '[p[i] for i in range(Np) if isobs[i]]' and len(bo) == 1 and unparse(bo[0].value) == '[bounds[i] for i in range(2) if isobs_b[i]]'
+        okp = _selects(f, po, p_, 'isobs') and _selects(f, bo, 'bounds', 'isobs_b')
         ctx.check(rule, 'integrate.py:quad#data-selection', okp, 'data lists select exactly the observable parameters / limits in index order', 'pobs=%s bobs=%s' % ([unparse(s.value) for s in po], [unparse(s.value) for s in bo]))
         # value carrier: 0 * (...) + val
         lam = dc.args[0]
@@ -267,7 +320,15 @@ def d2_quad(ctx):
             ctx.unrec(rule, 'integrate.py:quad#carrier', str(e))
         vd = find_def(f, 'val')
         ir = find_def(f, 'integration_result')
-        okv = len(vd) == 1 and unparse(vd[0].value) == 'integration_result[0]' and len(ir) == 1 and unparse(ir[0].value).startswith('squad(ifunc, bval[0], bval[1]')
+        okv = len(vd) == 1 and unparse(vd[0].value) == 'integration_result[0]' and len(ir) == 1 and isinstance(ir[0].value, ast.Call) and call_name(ir[0].value) == 'squad'
+        if okv:
+            c_ = ir[0].value
+            a0 = c_.args[0] if c_.args else kwarg(c_, 'func')
+            if isinstance(a0, ast.Name):
+                d_ = _def_before(f, a0.id, ir[0])
+                a0 = d_.value if d_ is not None else None
+            lims_ = [unparse(x) for x in c_.args[1:3]] + [unparse(kwarg(c_, k_)) for k_ in ('a', 'b')[len(c_.args[1:3]):] if kwarg(c_, k_) is not None]
+            okv = a0 is not None and unparse(a0) == 'np.vectorize(lambda x: %s(pval, x))' % func_ and lims_ == ['bval[0]', 'bval[1]']
         ctx.check(rule, 'integrate.py:quad#value', okv, 'val = scipy quad of f(pval, x) over [bval[0], bval[1]]', 'val=%s' % [unparse(s.value) for s in vd])
         # no observable involved -> scipy's result unchanged
         rets = [s for s in statements(f) if isinstance(s, ast.Return)]
